@@ -141,7 +141,19 @@ Definition run_case (c : case) : Z :=
             negb (spec_objid_row [s; rr; r; c; f; fi; o]
                     (match expect with Ok [id] => Some id | _ => None end))
             || (match expect with OtherError => true | _ => false end)
-        | _, _, _, _, _, _, _ => false
+        | _, _, _, _, _, _, _ =>
+            (* all seven arguments given as arrays of one common length: the documented behaviour is row-wise *)
+            match sky, rerun, run, camcol, ff, field, objnum with
+            | Ar a0, Ar a1, Ar a2, Ar a3, Ar a4, Ar a5, Ar a6 =>
+                let n := length a2 in
+                if forallb (fun c => Nat.eqb (length c) n) [a0; a1; a3; a4; a5; a6] then
+                  let rows := zip_rows [a0; a1; a2; a3; a4; a5; a6] n in
+                  if forallb objid_doc_ranges rows
+                  then negb (eqb_res expect (Ok (map (pack objid_table) rows)))
+                  else negb (eqb_res expect ValueError)
+                else negb (eqb_res expect ValueError)
+            | _, _, _, _, _, _, _ => false
+            end
         end in
       (if eqb_res m expect then 0 else 1) + (if spec_bad then 2 else 0)
   | CSpec plate fiber mjd run2d line index expect =>
@@ -163,7 +175,25 @@ Definition run_case (c : case) : Z :=
                   else negb (eqb_res expect ValueError)
               | _, _ => false
               end
-          | _, _, _, _ => false
+          | _, _, _, _ =>
+              match plate, fiber, mjd, run2d with
+              | Ar a0, Ar a1, Ar a2, R2arr a3 =>
+                  let n := length a0 in
+                  let zeros := repeat 0 n in
+                  let l := match line with Some (Ar l) => Some l | None => Some zeros | _ => None end in
+                  let i := match index with Some (Ar l) => Some l | None => Some zeros | _ => None end in
+                  match l, i with
+                  | Some l, Some i =>
+                      if forallb (fun c => Nat.eqb (length c) n) [a1; a2; a3; l; i] then
+                        let rows := zip_rows [a0; a1; map (fun z => z - 50000) a2; a3; l; i] n in
+                        if forallb specobjid_doc_ranges rows
+                        then negb (eqb_res expect (Ok (map (fun v => match v with [p; f; m; r; l; ix] => pack specobjid_table [p; f; m; r; l + ix] | _ => 0 end) rows)))
+                        else negb (eqb_res expect ValueError)
+                      else negb (eqb_res expect ValueError)
+                  | _, _ => false
+                  end
+              | _, _, _, _ => false
+              end
           end
         end in
       (if eqb_res m expect then 0 else 1) + (if spec_bad then 2 else 0)
